@@ -60,8 +60,75 @@ func init() {
 	})
 }
 
+// c06MetaImportProbe: the guard holds (the import line of the change is named by an identifier metavariable and the file
+// imports the path without a name), and the code of the change, which uses that metavariable as a qualifier, occurs in the
+// file only behind other qualifiers. No change applies: the file is untouched in every mode.
+func c06MetaImportProbe(ctx *core.Ctx, res *core.Result, idx int) {
+	r := ctx.Rand("c06meta", idx)
+	mv := []string{"foo", "pkg", "x"}[r.Intn(3)]
+	pt := "# clients\n@@\nvar " + mv + " identifier\n@@\n import " + mv + " \"example.com/foo\"\n\n-" + mv + ".FooClient\n+" + mv + ".Client\n"
+	quals := []string{"other", "o", "foox", "local"}
+	q := quals[r.Intn(len(quals))]
+	imp := "import (\n\t\"example.com/foo\"\n\t\"example.com/other\"\n)\n"
+	decl := "func   mk() " + q + ".FooClient { return " + q + ".FooClient{ } }\n"
+	switch q {
+	case "other":
+	case "local":
+		imp = "import \"example.com/foo\"\n"
+		decl = "func   mk(local struct{ FooClient int }) int { return local.FooClient }\n"
+	default:
+		imp = "import (\n\t\"example.com/foo\"\n\t" + q + " \"example.com/other\"\n)\n"
+	}
+	src := "package a\n\n" + imp + "\nvar _ = foo.Version\n\n" + decl
+	if !gen.Parses(src) {
+		res.Inconcl++
+		return
+	}
+	rep := map[string]string{"p.patch": pt, "in.go": src}
+	res.Evals++
+	res.Ob("meta-import-probes", 1)
+	res.Sig("meta-import", mv, q)
+	if ar := core.ApplyAPI(pt, src); !ar.OK() || string(ar.Out) != src {
+		res.Violate("C06/api-changed-unmatched-input/metavariable-named-import", ar.ErrString()+string(ar.Out), rep)
+		return
+	}
+	for _, mode := range []string{"--diff", "--print-only", ""} {
+		dir, _ := os.MkdirTemp(ctx.Tmp, "c06meta")
+		defer os.RemoveAll(dir)
+		os.MkdirAll(filepath.Join(dir, "src"), 0o755)
+		os.WriteFile(filepath.Join(dir, "src", "a.go"), []byte(src), 0o644)
+		os.WriteFile(filepath.Join(dir, "p.patch"), []byte(pt), 0o644)
+		args := []string{"-p", "p.patch"}
+		if mode != "" {
+			args = append(args, mode)
+		}
+		before := core.TreeDigest(filepath.Join(dir, "src"))
+		cr := ctx.RunCLI(core.CLIOpts{Dir: dir, Args: append(args, "src/a.go")})
+		after := core.TreeDigest(filepath.Join(dir, "src"))
+		rep["stdout.txt"], rep["stderr.txt"] = string(cr.Stdout), string(cr.Stderr)
+		want := ""
+		if mode == "--print-only" {
+			want = src
+		}
+		switch {
+		case cr.CrashClass() != "" || cr.Exit != 0:
+			res.Violate("C06/nonzero-exit/metavariable-named-import", fmt.Sprintf("[%s] exit %d: %s", mode, cr.Exit, cr.Stderr), rep)
+		case before["a.go"] != after["a.go"]:
+			res.Violate("C06/unmatched-file-touched/metavariable-named-import", mode, rep)
+		case string(cr.Stdout) != want || len(cr.Stderr) != 0:
+			res.Violate("C06/stderr-output-without-match/metavariable-named-import", fmt.Sprintf("[%s] stdout %q stderr %q", mode, core.Trunc(string(cr.Stdout), 200), core.Trunc(string(cr.Stderr), 200)), rep)
+		default:
+			continue
+		}
+		return
+	}
+}
+
 func runC06(ctx *core.Ctx, idx int) *core.Result {
 	res := &core.Result{}
+	if idx%10 == 4 {
+		c06MetaImportProbe(ctx, res, idx)
+	}
 	r := ctx.Rand("c06", idx)
 	g := gen.NewG(r)
 	g.Comment = r.Intn(2) == 0
